@@ -239,7 +239,7 @@ pub fn judge(ctx: &mut Ctx, b: &[u8], origin: &str) {
 }
 
 pub fn run(ctx: &mut Ctx) {
-    let total = ctx.n(12_000, 600_000);
+    let total = ctx.n(80_000, 2_000_000);
     for case in ctx.cases(total) {
         ctx.begin_case(case);
         let mut rng = ctx.rng(case);
